@@ -21,13 +21,13 @@ def _measure(c):
     from copy import deepcopy
     cc = deepcopy(c)
     cc._state_var_values = {}; cc._state_var_indices = {}; cc._ir = None
-    pyr.reset_pyrates()
+    reset_keep_templates()
     try:
         func, args, names, smap = cc.get_run_func("f", STEP, in_place=True, float_precision="float64", vectorize=False,
                                                   backend="default", verbose=False, clear=False)
         obs = c07._read(func, args, names, smap)
     finally:
-        pyr.reset_pyrates()
+        reset_keep_templates()
     cy = deepcopy(c)
     cy.to_yaml("dump_x.yaml")
     txt = open("dump_x.yaml").read()
@@ -43,17 +43,66 @@ def _declared(c):
     from copy import deepcopy
     cc = deepcopy(c)
     cc._state_var_values = {}; cc._state_var_indices = {}; cc._ir = None
-    pyr.reset_pyrates()
+    reset_keep_templates()
     try:
         _, args, _, smap = cc.get_run_func("f", STEP, in_place=True, float_precision="float64", vectorize=False,
                                            backend="default", verbose=False, clear=False)
         y = np.asarray(args[1], dtype=np.float64)
         return {k: float(y[int(np.asarray(i).reshape(-1)[0])]) for k, i in smap.items()}
     finally:
-        pyr.reset_pyrates()
+        reset_keep_templates()
 
 
 DERIVED_EQ = {"op": "d/dt * x = k + u", "oq": "d/dt * z = v"}
+YDIR, YFILE = "yd", "model_x"
+
+
+def yaml_text(case):
+    """the case's templates as a YAML file with `base:` chains: every operator / node / circuit template once (loading it
+    through from_yaml makes every user share ONE cached object), plus one derived template of each"""
+    L = []
+    fl = lambda v: repr(float(Fr(v)))
+    for o in case["ops"]:
+        lib = OPLIB[o["name"]]
+        L.append(f"{o['name']}:\n  base: OperatorTemplate\n  equations: [\"{lib['eq']}\"]\n  variables:")
+        for var, v in o["defs"]:
+            val = f"{lib['kind']}({fl(v)})" if var == lib["state"] else f"input({fl(v)})" if var == lib["inp"] else fl(v)
+            L.append(f"    {var}: {val}")
+        L.append(f"{o['name']}_derived:\n  base: {o['name']}\n  equations: [\"{DERIVED_EQ[o['name']]}\"]")
+    for i, n in enumerate(case["nodes"]):
+        L.append(f"n{i}:\n  base: NodeTemplate\n  operators:")
+        for oi, vs in n["ops"]:
+            L.append(f"    {case['ops'][oi]['name']}: {{" + ", ".join(f"{var}: {fl(v)}" for var, v in vs) + "}")
+        oi0 = n["ops"][0][0]
+        L.append(f"n{i}_derived:\n  base: n{i}\n  operators:\n    {case['ops'][oi0]['name']}: {{k: 7.0}}")
+    for i, c in enumerate(case["circs"]):
+        kind, pre = ("nodes", "n") if c["leaf"] else ("circuits", "ct")
+        L.append(f"ct{i}:\n  base: CircuitTemplate\n  {kind}:")
+        for k, j in c["children"]:
+            L.append(f"    {k}: {pre}{j}")
+        L.append("  edges:" + (" []" if not c["edges"] else ""))
+        for s, t, w in c["edges"]:
+            L.append(f"    - [{s}, {t}, null, {{weight: {fl(w)}}}]")
+        if c["edges"]:
+            s, t, w = c["edges"][0]
+            L.append(f"ct{i}_derived:\n  base: ct{i}\n  edges:\n    - [{s}, {t}, null, {{weight: 0.5}}]")
+    return "\n".join(L) + "\n"
+
+
+def build_yaml(case):
+    from pyrates.frontend import CircuitTemplate
+    os.makedirs(YDIR, exist_ok=True)
+    open(os.path.join(YDIR, YFILE + ".yaml"), "w").write(yaml_text(case))
+    return CircuitTemplate.from_yaml(f"{YDIR}/{YFILE}/ct{len(case['circs']) - 1}")
+
+
+def reset_keep_templates():
+    """pyr.reset_pyrates() but the YAML template cache survives: the cached base templates are the objects under test"""
+    import pyr
+    from pyrates.frontend import template as _t
+    saved = dict(_t.template_cache)
+    pyr.reset_pyrates()
+    _t.template_cache.update(saved)
 
 
 def _find_op(c, name):
@@ -72,7 +121,8 @@ def impl(case):
     import numpy as np
     import pyr
     from copy import deepcopy
-    c = build(case)
+    pyr.reset_pyrates()
+    c = build_yaml(case) if case.get("via_yaml") else build(case)
     declared = _declared(c)
     depth = case["depth"]
     outpat = "/".join(["all"] * (depth + 1)) + "/op/x"
@@ -101,6 +151,11 @@ def impl(case):
             outs.append({"count": len(c.collect_edges())})
         elif k == "collect_edges_delay":
             outs.append({"count": len(c.collect_edges(delay_info=True))})
+        elif k == "load_derived":
+            # loading a template whose `base:` is one of the cached templates: base.update_template(**yaml dict)
+            from pyrates.frontend.template import from_yaml
+            from_yaml(f"{YDIR}/{YFILE}/{o[1]}_derived")
+            outs.append("done")
         elif k == "op_update":
             # OperatorTemplate.update_template with an equation edit and no `variables`: a derived template is returned,
             # the variables the new equation does not use are dropped from ITS dict only (fix D44)
@@ -121,7 +176,7 @@ def impl(case):
             c.update_template(edges=[(s, t, None, {"weight": float(Fr(w))}) for s, t, w in o[1]])
             outs.append("done")
         elif k in ("grf", "jac"):
-            pyr.reset_pyrates()
+            reset_keep_templates()
             try:
                 meth = c.get_run_func if k == "grf" else c.get_jacobian_func
                 _, args, _, smap = meth("f", STEP, in_place=False, float_precision="float64", vectorize=bool(o[1]),
@@ -132,9 +187,9 @@ def impl(case):
             except (ValueError, KeyError, TypeError) as e:
                 outs.append({"y0": "err", "type": type(e).__name__})
             finally:
-                pyr.reset_pyrates()
+                reset_keep_templates()
         elif k == "run":
-            pyr.reset_pyrates()
+            reset_keep_templates()
             try:
                 res = c.run(simulation_time=4 * STEP, step_size=STEP, solver="euler", outputs={"o": outpat}, in_place=False,
                             float_precision="float64", vectorize=bool(o[1]), backend="default", verbose=False, clear=False)
@@ -144,7 +199,7 @@ def impl(case):
             except (TypeError, IndexError, ValueError, KeyError) as e:     # TypeError after get_run_func, IndexError after get_jacobian_func
                 outs.append({"run": "err", "type": type(e).__name__})
             finally:
-                pyr.reset_pyrates()
+                reset_keep_templates()
     return outs
 
 # ---------------------------------------------------------------------------------------------- generator
@@ -247,6 +302,15 @@ def gen_case(rng, maxlen):
             seq.append(["obs"])
     seq.append(["obs"])
     case["seq"] = seq
+    if rng.random() < 0.35:
+        # the same templates loaded from a YAML file (cached, shared objects); derived templates are loaded during the sequence
+        case["via_yaml"] = True
+        for o in ops:
+            o["dictform"] = []
+        names_d = [o["name"] for o in ops] + [f"n{i}" for i in range(len(nodes))] + [f"ct{i}" for i, c in enumerate(circs) if c["edges"]]
+        k = rng.randint(1, 3)
+        for _ in range(k):
+            seq.insert(rng.randint(1, len(seq) - 1), ["load_derived", rng.choice(names_d)])
     return case
 
 
@@ -255,16 +319,30 @@ def nontrivial(case):
     return nops >= 2 and (c07.shared_objects(case) or case["depth"] >= 1)
 
 # ---------------------------------------------------------------------------------------------- model side
+import re as _re
+
+def fixed_switch():
+    """the one-line switch of Mutation.v (`Definition fixed_state_carry : bool := ...`), overridable by VERIF_C14_FIXED=1/0:
+    true = the checked tree carries the proposed state-carry repair, the guard no_state_carry is dropped"""
+    env = os.environ.get("VERIF_C14_FIXED")
+    if env is not None:
+        return env.strip() in ("1", "true")
+    txt = open(os.path.join(COQ, "theories", "Mutation.v")).read()
+    return _re.search(r"Definition fixed_state_carry : bool := (true|false)\.", txt).group(1) == "true"
+
+
+FIXED = fixed_switch()
 HEADER = """From Coq Require Import List String ZArith QArith Qcanon Bool.
 From PV Require Import Heap Values Mutation Corr.
 Import ListNotations.
-Definition ccase := (nat * id * heap * list string * list mop * list pymout)%type.
-Definition okI (c : ccase) := let '(d, r, h, inputs, ops, pys) := c in mouts_ok inputs (snd (mrun d r (h, book0) ops)) pys.
+Definition fixed : bool := %s.
+Definition ccase := (nat * id * heap * list string * list mop * list pymout)%%type.
+Definition okI (c : ccase) := let '(d, r, h, inputs, ops, pys) := c in mouts_ok inputs (snd (mrun_gen fixed d r (h, book0) ops)) pys.
 Definition okS (c : ccase) := let '(d, r, h, inputs, ops, pys) := c in
   match abs d h r with Some t => mouts_ok inputs (map (mstepS d t) ops) pys | None => false end.
-Definition guard (c : ccase) := let '(d, r, h, inputs, ops, pys) := c in no_state_carry ops.
+Definition guard (c : ccase) := let '(d, r, h, inputs, ops, pys) := c in orb fixed (no_state_carry ops).
 Definition wf (c : ccase) := let '(d, r, h, inputs, ops, pys) := c in match abs d h r with Some t => true | None => false end.
-"""
+""" % ("true" if FIXED else "false")
 
 
 def coq_case(case, outs):
@@ -281,7 +359,7 @@ def coq_case(case, outs):
         elif k in ("get_node_template", "getitem"):
             ops.append(f"MRead (QNodeTemplate {cpath(o[1])})")
             pys.append("PNodeOps None" if r["ops"] is None else "PNodeOps (Some " + clist([cstr(x) for x in r["ops"]]) + ")")
-        elif k == "op_update":
+        elif k in ("op_update", "load_derived"):
             ops.append(f"MNewObject (OOp {cstr(o[1] + '_derived')} [] [])"); pys.append("PDone'")
         elif k in ("get_edges", "collect_edges", "collect_edges_delay"):
             ops.append("MRead QEdges"); pys.append(f"PEdgeCount (Some {cnat(r['count'])})")
@@ -330,7 +408,7 @@ def model_outputs(ctx, case, outs, tag):
     c07.TAB.__init__()
     term = coq_case(case, outs)
     body = (c07.TAB.defs() + f"Definition c : ccase := {term}.\n"
-            "Eval vm_compute in (let '(d, r, h, inputs, ops, pys) := c in snd (mrun d r (h, book0) ops)).\n")
+            "Eval vm_compute in (let '(d, r, h, inputs, ops, pys) := c in snd (mrun_gen fixed d r (h, book0) ops)).\n")
     try:
         return coq_eval(ctx, f"c14_show_{tag}", HEADER, body)[:6000]
     except Exception as e:
@@ -375,6 +453,8 @@ def check(ctx):
     assert not ill, f"generator produced an ill-formed store: {ill[:5]}"
     side = [i for i in good if side_checks(cases[i], outs[i])]
     badS = sorted(set(badS) | set(side)); badI = sorted(set(badI) | set(side))
+    if FIXED:
+        ctx.note("state-carry repair switch is ON: Impl = mrun_gen true, guard no_state_carry dropped")
     ctx.note(f"E1: {len(cases)} sequences, {sum(len(c['seq']) for c in cases)} operations; impl-vs-Impl mismatches {len(badI)}, "
              f"impl-vs-Spec mismatches {len(badS)} (of which outside the guard no_state_carry: {len([i for i in badS if i in gfalse])}), "
              f"to_yaml-text / own-edge-list changes {len(side)}, harness/worker errors {len(crashed)}; sequences outside the guard: {len(gfalse)}")
@@ -394,13 +474,13 @@ def check(ctx):
             kinds[o[0]] = kinds.get(o[0], 0) + 1
     write_evidence(ctx, evaluations=len(cases), distinct_nontrivial=len(nt),
                    rule="random sequences of get_nodes / get_node_template / __getitem__ / get_edges / collect_edges (also delay_info=True) / get_edge / to_yaml / "
-                        "deepcopy / update_template(edges) / OperatorTemplate.update_template(equations) / get_run_func / get_jacobian_func / run (in_place=False, both vectorize settings) on templates of depth 0-2 "
+                        "deepcopy / update_template(edges) / OperatorTemplate.update_template(equations) / loading a derived template (base: chain) from YAML / get_run_func / get_jacobian_func / run (in_place=False, both vectorize settings) on templates of depth 0-2 "
                         "with one OperatorTemplate object per name (constants partly declared in explicit dict form), shared NodeTemplate objects, per-node overrides and (20%) shared sub-circuit objects; "
                         "the template is measured (deep copy with cleared bookkeeping: parameter values, declared initial values, edge sums, to_yaml text, "
                         "own edge count) before, between and after; non-trivial = >= 2 operations and (a shared object or a hierarchy); distinct = canonical JSON",
                    samples=[dict(cases[-1], seq=cases[-1]["seq"][:6])] if cases else [],
                    extra=dict(input_distribution=dict(depth={d: sum(1 for c in cases if c["depth"] == d) for d in (0, 1, 2)}, operations=kinds,
-                                                      outside_guard=len(gfalse), shared_template_object=sum(1 for c in cases if c07.shared_objects(c))),
+                                                      outside_guard=len(gfalse), built_through_from_yaml=sum(1 for c in cases if c.get('via_yaml')), shared_template_object=sum(1 for c in cases if c07.shared_objects(c))),
                               impl_vs_model_mismatches=len(badI), impl_vs_spec_mismatches=len(badS)),
                    trusted_base=["float64 arithmetic of the generated affine right-hand sides is exact on the dyadic data",
                                  "to_yaml text and the length of the template's own edge list are compared for equality across measurements on the Python side "
@@ -409,4 +489,4 @@ def check(ctx):
                                  "(all generated derivatives are > 0, so a carried final state differs)"],
                    assumptions=["edge attribute dictionaries hold numbers only (collect_edges rewrites string-valued attributes of sub-circuit edges: not modelled)",
                                 "no extrinsic inputs; default backend; the vectorize-switch outcomes are those of circuits whose nodes all merge under vectorization",
-                                "OperatorTemplate.update_template is modelled as the creation of one new object (MNewObject); loading a derived template from YAML is not exercised"])
+                                "OperatorTemplate.update_template and loading a derived template from YAML (35% of the cases are built through from_yaml, so that the cached base templates are the objects under test) are modelled as the creation of one new object (MNewObject)"])
